@@ -31,8 +31,8 @@ from contracts import ppcmodel as pm
 PROP = "C16"
 MIN_OBLIGATIONS = 40
 BG = "pandapower.build_gen"
-NOT_DECIDED = ["not decided: the interior point solver (A-SOLVE exit contract assumed), branch loading limits (RATE_A: C02 line build), dcline "
-               "constraints (_add_dcline_constraints), bus voltage limits of plain buses (_build_bus_ppc), DC OPF",
+NOT_DECIDED = ["not decided: the interior point solver (A-SOLVE exit contract assumed), branch loading limits of the AC OPF (RATE_A: C02 line build), "
+               "bus voltage limits of plain buses (_build_bus_ppc); dcline constraints (_add_dcline_constraints): bounded native stand-in only",
                "not decided: 'a power flow with the OPF dispatch reproduces the results' (power flow solver: C01/C06)"]
 
 GEN_SEGS = ["ext_grid", "gen", "sgen_controllable", "load_controllable", "storage_controllable", "xward"]
@@ -99,6 +99,7 @@ def run(vc):
     run_gen(vc, ("opf", "pf"))
     run_gen_vm(vc)
     run_dc_flow_limits(vc)
+    _standins(vc)
 
 
 def run_results(vc, tagprefix=""):
@@ -201,6 +202,17 @@ def run_gen_vm(vc):
         p.prove("gen[opf]:bus-VMIN", lo == want_lo, meta=dict(part="gen-vm"),
                 note="lower voltage limit of the gen's bus: the tighter one of the bus limit and the gen's own min_vm_pu")
     vc.explore("_build_pp_gen[opf, voltage limits]", h, max_paths=400)
+
+
+def _standins(vc):
+    if not hasattr(vc, "native_standins"):
+        vc.native_standins = []
+    vc.native_standins.append(dict(
+        name="OPF results of a lossy dcline against the dcline model of the power flow",
+        bound="one 4-bus 110 kV network with a dcline, 5 combinations of loss_percent / loss_mw / direction of the set point; AC OPF, then a power "
+              "flow with the dispatched dcline power: p_from_mw and p_to_mw must agree (_add_dcline_constraints builds a sparse matrix row by row "
+              "from slices of the gen index: outside the deductive fragment)",
+        script="from replaylib.opf_feasible import main_dcline\nmain_dcline()\n"))
 
 
 def run_dc_flow_limits(vc):
